@@ -9,6 +9,7 @@ use rand::SeedableRng;
 use rand_chacha::ChaCha8Rng;
 use std::io::Write;
 
+mod c06;
 mod c07;
 mod c13;
 mod c20;
@@ -79,6 +80,7 @@ fn main() {
     };
     match prop.as_str() {
         "C20" => c20::run(&mut ctx),
+        "C06" => c06::run(&mut ctx),
         "C07" => c07::run(&mut ctx),
         "C13" => c13::run(&mut ctx),
         other => { eprintln!("unknown property {other}"); std::process::exit(2); }
